@@ -100,6 +100,13 @@ pub fn traces(ops_path: &str, impl_path: &str) {
         record("stream_read_write_fill", &mut |c| { let mut s = c.open_stream("/m/k/big").unwrap(); let mut b = [0u8; 64]; s.read_exact(&mut b).unwrap(); s.write_all(&pattern(70, 5)).unwrap(); let n = s.fill_buf().unwrap().len(); s.consume(n.min(3)); let _ = s.len(); let _ = s.stream_position(); });
         record("stream_write_seek_read", &mut |c| { let mut s = c.open_stream("/s1").unwrap(); s.write_all(&pattern(300, 6)).unwrap(); s.seek(SeekFrom::Current(-100)).unwrap(); let mut b = [0u8; 50]; let _ = s.read(&mut b).unwrap(); s.seek(SeekFrom::Start(0)).unwrap(); let _ = s.read(&mut b).unwrap(); });
         record("stream_write_set_len_read", &mut |c| { let mut s = c.open_stream("/s1").unwrap(); s.write_all(&pattern(30, 7)).unwrap(); s.set_len(5000).unwrap(); let mut b = [0u8; 50]; let _ = s.read(&mut b).unwrap(); });
+        // argument boundaries combined with buffer state: set_len to exactly the handle's length while the appended
+        // bytes are still only in the buffer (a branch for "nothing to do" that syncs the directory), to 0, to the
+        // position; relative seeks by 0 and to the end with a dirty buffer
+        record("stream_append_set_len_same_len", &mut |c| { let mut s = c.open_stream("/s2").unwrap(); s.seek(SeekFrom::End(0)).unwrap(); s.write_all(&pattern(100, 8)).unwrap(); let n = s.len(); s.set_len(n).unwrap(); s.set_len(n).unwrap(); });
+        record("stream_overwrite_set_len_same_len", &mut |c| { let mut s = c.open_stream("/s1").unwrap(); s.write_all(&pattern(50, 8)).unwrap(); let n = s.len(); s.set_len(n).unwrap(); });
+        record("stream_dirty_set_len_to_position_and_zero", &mut |c| { let mut s = c.open_stream("/m/k/big").unwrap(); s.seek(SeekFrom::Start(4000)).unwrap(); s.write_all(&pattern(300, 8)).unwrap(); let p = s.stream_position().unwrap(); s.set_len(p).unwrap(); s.write_all(&pattern(10, 9)).unwrap(); s.set_len(0).unwrap(); });
+        record("stream_dirty_seeks", &mut |c| { let mut s = c.open_stream("/s1").unwrap(); s.write_all(&pattern(20, 8)).unwrap(); s.seek(SeekFrom::Current(0)).unwrap(); s.seek(SeekFrom::End(0)).unwrap(); s.write_all(&pattern(20, 9)).unwrap(); s.seek(SeekFrom::End(0)).unwrap(); s.seek(SeekFrom::Start(0)).unwrap(); });
         record("stream_set_len", &mut |c| { let mut s = c.open_stream("/s1").unwrap(); s.set_len(100).unwrap(); s.set_len(6000).unwrap(); });
         record("create_stream", &mut |c| { c.create_stream("/new1").unwrap(); c.create_new_stream("/new2").unwrap(); c.create_stream("/new1").unwrap(); });
         record("create_storage", &mut |c| { c.create_storage("/ns").unwrap(); c.create_storage_all("/ns/a/b").unwrap(); });
